@@ -542,6 +542,9 @@ impl<C: Suite> Consume<Ctx<C>> for Signature<C> {
         fmt_all(self);
         dbg_all(self);
         let _ = self.verify(&x.pk, &x.msg);
+        for l in [0usize, 1, 7, 8, 255, 256] {
+            let _ = self.verify(&x.pk, vec![0x62u8; l]);
+        }
         let _ = self.same_scheme(&x.sigs[0]);
         let _ = AggregateSignature::<C>::from_signatures([*self, x.sigs[0]]).map(|a| a.verify(&[(x.pk, x.msg.clone()), (x.pk, b"m2".to_vec())]));
         let _ = MultiSignature::<C>::from_signatures([*self, x.sigs[2]]).map(|m| m.verify(MultiPublicKey::from_public_keys([x.pk, x.pk]), &x.msg));
@@ -591,6 +594,9 @@ impl<C: Suite> Consume<Ctx<C>> for ProofOfKnowledge<C> {
         fmt_all(self);
         dbg_all(self);
         let _ = self.verify(x.pk, &x.msg, x.challenge);
+        for l in [0usize, 1, 7, 8] {
+            let _ = self.verify(x.pk, vec![0x62u8; l], x.challenge);
+        }
     }
 }
 impl<C: Suite> Consume<Ctx<C>> for ProofOfKnowledgeTimestamp<C> {
